@@ -1,13 +1,16 @@
-import Probe.InvOps
+import Core.InvOps
+set_option linter.unusedSectionVars false
 namespace Sodg
 
-@[simp] theorem kill_size (vs : Array Vertex) (ms : List Nat) : (kill vs ms).size = vs.size := by
+variable {L D : Type} [DecidableEq L] [Inhabited D]
+
+@[simp] theorem kill_size (vs : Array (Vertex L D)) (ms : List Nat) : (kill vs ms).size = vs.size := by
   unfold kill
   induction ms generalizing vs with
   | nil => simp
   | cons m ms ih => simp [List.foldl_cons, ih]
 
-theorem kill_get (vs : Array Vertex) (ms : List Nat) (w : Nat) :
+theorem kill_get (vs : Array (Vertex L D)) (ms : List Nat) (w : Nat) :
     (kill vs ms)[w]! = if w ∈ ms ∧ w < vs.size then { vs[w]! with branch := 0 } else vs[w]! := by
   unfold kill
   induction ms generalizing vs with
@@ -17,20 +20,20 @@ theorem kill_get (vs : Array Vertex) (ms : List Nat) (w : Nat) :
     rw [ih]
     by_cases hw : w < vs.size <;> by_cases hm : w ∈ ms <;> by_cases he : m = w <;> grind
 
-@[simp] theorem cap_collect (g : G) (b : Nat) : cap (collect g b) = cap g := by simp [cap, collect]
-theorem tag_collect (g : G) (b w : Nat) :
+@[simp] theorem cap_collect (g : G L D) (b : Nat) : cap (collect g b) = cap g := by simp [cap, collect]
+theorem tag_collect (g : G L D) (b w : Nat) :
     tag (collect g b) w = if w ∈ mem g b ∧ w < cap g then 0 else tag g w := by
   unfold tag collect cap; simp only [kill_get]; split <;> simp
-@[simp] theorem pers_collect (g : G) (b w : Nat) : pers (collect g b) w = pers g w := by
+@[simp] theorem pers_collect (g : G L D) (b w : Nat) : pers (collect g b) w = pers g w := by
   unfold pers collect; simp only [kill_get]; split <;> simp
-theorem mem_collect (g : G) (b c : Nat) :
+theorem mem_collect (g : G L D) (b c : Nat) :
     mem (collect g b) c = if b = c ∧ c < g.br.size then [] else mem g c := by
   unfold mem collect; by_cases h : c < g.br.size <;> grind
-@[simp] theorem cnt_collect (g : G) (b c : Nat) : cnt (collect g b) c = cnt g c := rfl
-@[simp] theorem brsize_collect (g : G) (b : Nat) : (collect g b).br.size = g.br.size := by simp [collect]
-@[simp] theorem stsize_collect (g : G) (b : Nat) : (collect g b).st.size = g.st.size := rfl
+@[simp] theorem cnt_collect (g : G L D) (b c : Nat) : cnt (collect g b) c = cnt g c := rfl
+@[simp] theorem brsize_collect (g : G L D) (b : Nat) : (collect g b).br.size = g.br.size := by simp [collect]
+@[simp] theorem stsize_collect (g : G L D) (b : Nat) : (collect g b).st.size = g.st.size := rfl
 
-theorem unread_setPers_of_mem (g : G) (ms : List Nat) (hn : ms.Nodup) (v : Nat) (hv : v ∈ ms) (hc : v < cap g)
+theorem unread_setPers_of_mem (g : G L D) (ms : List Nat) (hn : ms.Nodup) (v : Nat) (hv : v ∈ ms) (hc : v < cap g)
     (hp : pers g v = .stored) : unread g ms = unread (setPers g v .taken) ms + 1 := by
   unfold unread
   induction ms with
@@ -53,13 +56,13 @@ theorem unread_setPers_of_mem (g : G) (ms : List Nat) (hn : ms.Nodup) (v : Nat) 
       simp only [List.filter_cons, e]
       split <;> simp_all
 
-theorem unread_setPers_of_not_mem (g : G) (ms : List Nat) (v : Nat) (p : Pers) (hv : v ∉ ms) :
+theorem unread_setPers_of_not_mem (g : G L D) (ms : List Nat) (v : Nat) (p : Pers) (hv : v ∉ ms) :
     unread (setPers g v p) ms = unread g ms := by
   apply unread_congr; intro w hw
   have : v ≠ w := by rintro rfl; exact hv hw
   simp [pers_setPers, this]
 
-theorem inv_data (g g' : G) (v : Nat) (r) (hi : Inv g) (hpres : tag g v ≠ 0) (h : data g v = some (g', r)) : Inv g' := by
+theorem inv_data (g g' : G L D) (v : Nat) (r) (hi : Inv g) (hpres : tag g v ≠ 0) (h : data g v = some (g', r)) : Inv g' := by
   unfold data at h
   split at h
   next hv =>
